@@ -42,7 +42,8 @@ def canonical_cols(D, names):
         return [K('absent'), K('int', 0), K('name', 'NOPE'), K('slice', [None, None, None]), K('list', []), K('ell')]
     ks = [K('absent')]
     ks += [K('int', i) for i in range(-D, D + 1)]
-    ks += [K('name', n) for n in names] + [K('name', 'NOPE')]
+    ks += [K('name', n) for n in names] + [K('name', 'NOPE'), K('name', names[0] + ' '), K('name', ' ' + names[-1]),
+                                            K('name', names[0].lower()), K('name', '')]
     for a in (None, 1):
         for b in (None, -1):
             for c in (None, 2, -1):
@@ -73,6 +74,15 @@ def rand_rows(rng, N):
     return K('ell')
 
 
+def near_name(rng, names):
+    """a string that is NOT a channel name of this sample unless it happens to equal one (the model decides):
+    real names padded, re-cased, cut or extended"""
+    if not names or rng.chance(0.35):
+        return rng.choice(['NOPE', '', ' ', '0', '-1'])
+    n = rng.choice(list(names))
+    return rng.choice([n + ' ', ' ' + n, n.lower(), n.upper(), n[:-1], n + 'x', n.strip(), n.swapcase()])
+
+
 def rand_cols(rng, D, names):
     t = rng.wchoice([('absent', 4), ('int', 2), ('name', 3), ('slice', 2), ('list', 4), ('tuple', 2), ('ell', 1),
                      ('boollist', 1), ('npmask', 1), ('npint', 1), ('ndarray', 1), ('range', 1)])
@@ -81,7 +91,7 @@ def rand_cols(rng, D, names):
     if t == 'int':
         return K('int', rng.randint(-D - 1, D))
     if t == 'name':
-        return K('name', rng.choice(list(names) + ['NOPE']) if rng.chance(0.9) else 'NOPE')
+        return K('name', rng.choice(list(names)) if rng.chance(0.8) else near_name(rng, names))
     if t == 'slice':
         return K('slice', [rng.choice([None, 0, 1, -1]), rng.choice([None, -1, D, 1]), rng.choice([None, 1, 2, -1])])
     if t in ('list', 'tuple'):
@@ -90,8 +100,8 @@ def rand_cols(rng, D, names):
         for _ in range(n):
             p = rng.randint(-D, D - 1) if rng.chance(0.93) else D
             v.append(names[p] if rng.chance(0.5) and -D <= p < D else p)
-        if rng.chance(0.04):
-            v.append('NOPE')
+        if rng.chance(0.06):
+            v.insert(rng.randint(0, len(v)), near_name(rng, names))
         if rng.chance(0.04):
             return K('nested', [v or [0]])            # a list wrapped once too often
         return K(t, v)
@@ -141,6 +151,10 @@ def gen_file(rng, N=None, D=None):
     D = D or (rng.randint(1, 5) if rng.chance(0.9) else rng.randint(17, 20))
     N = rng.randint(0, 6) if N is None else N
     names = (['FSC-H', 'SSC-H', 'FL1-H', 'FL2-H', 'Time'] + ['V%d-A' % j for j in range(1, 16)])[:D]
+    if D >= 2 and rng.chance(0.25):
+        # duplicate-free names that differ only by surrounding blanks or letter case
+        a, b = rng.sample(range(D), 2)
+        names[b] = rng.choice([names[a] + ' ', ' ' + names[a], names[a].lower(), names[a] + '  ', names[a].swapcase()])
     dt = rng.wchoice([('I', 6), ('F', 2), ('D', 2)])
     spec = fcsgen.gen_spec(rng, names=names, n_params=D, n_events=N, keywords=False, datatype=dt)
     spec['pads'] = []
@@ -168,7 +182,8 @@ class C04Machine(Machine):
     rule = ('histories over a pool of aliased handles against a NumPy reference model: (walk1) every canonical (row key, '
             'column key) pair of the grammar on a small loaded sample, exhaustively; (walk2, thorough) every canonical '
             'first key followed by every canonical key on its result; (chain) seeded chains of up to 4 getitem/setitem ops '
-            'on any live handle with every live handle re-checked after every op; distinct = distinct (handle role, row-key '
+            'on any live handle with every live handle re-checked after every op, some passing the key object of an '
+            'earlier expression again; distinct = distinct (handle role, row-key '
             'form, column-key form, get/set, chain depth, outcome) tuples')
     real_components = ['FlowCal.io.FCSData.__getitem__/__setitem__/_name_to_index/__array_finalize__ (real)',
                        'NumPy indexing underneath (real)']
@@ -219,12 +234,25 @@ class C04Machine(Machine):
                 ops.append({'op': 'edit_range', 'h': hi, 'col': rng.randint(0, 19), 'end': rng.choice([0, 1]),
                             'value': rng.choice([-7.0, 0.5, 123456.0])})
                 continue
+            prev_gets = [o for o in ops if o['op'] == 'get' and 'kid' in o]
+            if prev_gets and rng.chance(0.15):
+                src = rng.choice(prev_gets)
+                hj = rng.randint(0, len(shadow) - 1)
+                ops.append({'op': 'get', 'h': hj, 'rows': copy.deepcopy(src['rows']), 'cols': copy.deepcopy(src['cols']),
+                            'keyref': src['kid']})
+                try:
+                    r = ix.m_getitem(shadow[hj], src['rows'], src['cols'])
+                    if r.role != 'scalar' and r.role != 'other' and np.ndim(r.vals) >= 1:
+                        shadow.append(r)
+                except Exception:
+                    pass
+                continue
             if rng.chance(0.3):
                 val = rng.choice([{'k': 'scalar', 'v': rng.randint(0, 7)}, {'k': 'iota', 'v': rng.randint(1, 5)},
                                   {'k': 'row', 'v': rng.randint(0, 5)}])
                 ops.append({'op': 'set', 'h': hi, 'rows': rows, 'cols': cols, 'val': val})
             else:
-                ops.append({'op': 'get', 'h': hi, 'rows': rows, 'cols': cols})
+                ops.append({'op': 'get', 'h': hi, 'rows': rows, 'cols': cols, 'kid': len(ops)})
                 try:
                     r = ix.m_getitem(h, rows, cols)
                     if r.role != 'scalar' and r.role != 'other' and np.ndim(r.vals) >= 1:
@@ -293,6 +321,7 @@ class C04Machine(Machine):
         base = ix.MHandle(base_vals, read_meta(d), '2d')
         handles = [(d, base, 0)]
         ops = self.expand(case)
+        keys_by_id = {}
 
         def check_handle(real, mh, where, depth):
             """values always; metadata when the model tracks it"""
@@ -350,6 +379,12 @@ class C04Machine(Machine):
             # address?): like the "other forms" they may be refused or must agree with plain indexing on the values
             other = cf in OTHER_COLS or (mh.role != '2d' and cols['t'] != 'absent')
             key = ix.user_key(rows, cols)
+            if op.get('keyref') is not None and op['keyref'] in keys_by_id:
+                # the caller passes the very object used in an earlier expression (a variable holding the key)
+                key = keys_by_id[op['keyref']]
+                bump(out['probes'], 'key_object_reused')
+            if 'kid' in op:
+                keys_by_id[op['kid']] = key
             site0 = '%s|%s|%s|%s|d%d' % (mh.role, rf, cf, op['op'], min(depth, 3))
             if op['op'] == 'get':
                 try:
